@@ -121,11 +121,12 @@ func instantiate(a mAttr) (*mCert, error) {
 		}
 		tpl.PermittedEmailAddresses, tpl.ExcludedEmailAddresses = a.permEmail, a.exclEmail
 		tpl.PermittedURIDomains, tpl.ExcludedURIDomains = a.permURI, a.exclURI
-		for _, c := range a.permIP {
-			tpl.PermittedIPRanges = append(tpl.PermittedIPRanges, mustCIDR(c))
+		// every admitted layout of an IPv4 *net.IPNet (4/4, 16/4, 4/16 bytes), chosen by a fixed function of the range
+		for i, c := range a.permIP {
+			tpl.PermittedIPRanges = append(tpl.PermittedIPRanges, ipLayout(mustCIDR(c), len(c)+i+1))
 		}
-		for _, c := range a.exclIP {
-			tpl.ExcludedIPRanges = append(tpl.ExcludedIPRanges, mustCIDR(c))
+		for i, c := range a.exclIP {
+			tpl.ExcludedIPRanges = append(tpl.ExcludedIPRanges, ipLayout(mustCIDR(c), len(c)+i+2))
 		}
 	}
 	if len(a.permitted)+len(a.excluded)+len(a.permEmail)+len(a.exclEmail)+len(a.permURI)+len(a.exclURI)+len(a.permIP)+len(a.exclIP) > 0 {
@@ -343,6 +344,8 @@ func (d deviation) field() string {
 		return "excluded"
 	case "san-evil", "san-within", "leaf-no-san":
 		return "dns"
+	case "named-like-issuer":
+		return "name"
 	case "twin-root-added", "twin-root-replaces":
 		return "twinroot"
 	}
@@ -373,6 +376,9 @@ func listDeviations(n int) []deviation {
 	add("san-evil", 1, n)
 	add("san-within", 1, n)
 	add("leaf-no-san", 0, 0)
+	// subject DN byte-identical to the issuer's DN with another key (a "self-issued" certificate, as in key rollover):
+	// self-issued is not self-signed, the issuer's CA flag and key usage still count
+	add("named-like-issuer", 0, n)
 	r = append(r, deviation{"other-root", -1}, deviation{"twin-root-added", -1}, deviation{"twin-root-replaces", -1})
 	add("cross-signed", 1, n)
 	// the root's subject and key once more as a certificate issued by a CA that is in no pool (unless other-root adds
@@ -427,6 +433,13 @@ func (p *pkiSpec) apply(d deviation) {
 		p.chain[d.pos].dns = []string{"ca.example.com"}
 	case "leaf-no-san":
 		p.chain[d.pos].dns = nil
+	case "named-like-issuer":
+		// applied after the other attribute deviations of this position; every certificate below keeps naming its issuer
+		old := p.chain[d.pos].name
+		p.chain[d.pos].name = p.chain[d.pos].issuerName
+		if d.pos > 0 && p.chain[d.pos-1].issuerName == old {
+			p.chain[d.pos-1].issuerName = p.chain[d.pos].name
+		}
 	case "other-root":
 		k := topoKey(p.kind(n+1), roleOther, 0)
 		p.extraR = append(p.extraR, mAttr{name: "C15 Other Root", key: k, issuerName: "C15 Other Root", signer: k, akiOf: k, caMode: 1,
@@ -965,7 +978,7 @@ func runTopo(t *engine.T, mode string, n int, devs []deviation, times []vtime) m
 
 func benign(d deviation) bool {
 	switch d.kind {
-	case "root-cross-untrusted", "pathlen-tight", "nc-permits-leaf", "nc-excludes-evil", "san-evil", "san-within", "leaf-no-san", "other-root", "twin-root-added", "cross-signed", "twin-intermediate":
+	case "named-like-issuer", "root-cross-untrusted", "pathlen-tight", "nc-permits-leaf", "nc-excludes-evil", "san-evil", "san-within", "leaf-no-san", "other-root", "twin-root-added", "cross-signed", "twin-intermediate":
 		return true
 	}
 	return false
